@@ -205,6 +205,13 @@ func replaySpec(c *Ctx, raw json.RawMessage, judge func(c *Ctx, e *ProgEval, cou
 		return nil
 	}
 	es := EvalPrograms(c, []*Spec{&s}, PipeOpts{Build: true, Exec: true})
+	for _, v := range es[0].Verdicts {
+		if !v.Accept {
+			// a saved case the reference model rejects (e.g. the witness of a
+			// repaired defect): Wire must reject it too
+			return judgeVerdict(c, es[0], c.Prop, "")
+		}
+	}
 	return judge(c, es[0], false)
 }
 
